@@ -26,6 +26,16 @@ CHECKS = {
    note="Trusted: jxlw::headers. Oracle-uncertain combinations excluded (XYB enum colour space, Mul clamp without extra channels, EC blend source with mixed Replace).",
    technique="deviation-bounded exhaustive enumeration of header field assignments vs independent reference writer",
    design_ref="4/C14", engine="mc"),
+ "C09": dict(category="model_checking",
+   text="Feed histories enumerated exhaustively on the real decoder: every 2-chunking of every corpus stream (17 jxlw streams: bare/container, jxlp splits with brob/Exif/xml, single/multi-frame animations and layers, multi-group and multi-pass frames, permuted TOC) plus every 3-chunking for streams up to 90/200 bytes and fixed chunk sizes 1,2,3,5,7,64, and the libjxl-encoded cmyk_layers.jxl around every frame offset; protocol = unconsumed bytes re-offered, try_init after each chunk. Oracle: the same decoder reading the whole buffer (headers, frame count, offsets, aux boxes, completion flag, ICC, rendered sample bits).",
+   note="Differential: a defect that affects whole-buffer and chunked reading identically is invisible here (C03/C10/C14 cover that side). Modular-only corpus plus one real file.",
+   technique="exhaustive enumeration of feed chunkings on the real decoder, differential vs whole-buffer read, abstract-state accounting",
+   design_ref="4/C09", engine="mc"),
+ "C11": dict(category="model_checking",
+   text="Every cut position of every corpus stream with try_init + render_loading_frame at the cut, every pair of cuts with render attempts at every non-empty subset (streams up to 80/160 bytes; grid + adjacent pairs above), byte-at-a-time with a render after every byte, and cmyk_layers.jxl (as container and as extracted codestream) around every frame offset and every byte of the last 40 bytes of its ICC stream. Oracle: init Ok/NeedMoreData, feeding never errs, loading render = full-size image or need-more-data, final result identical to one-shot decode.",
+   note="Need-more-data = jxl_render::Error with unexpected_eof(), IncompleteFrame or NotReady. Modular-only corpus plus one real file.",
+   technique="exhaustive enumeration of cut positions / cut pairs x render attempts on the real decoder",
+   design_ref="4/C11", engine="mc"),
 }
 NOT_YET = "check not built yet in this round (work in progress; see DESIGN.md section 10)"
 NA = {}
